@@ -163,13 +163,47 @@ def _bool_consts(t):
     return out
 
 
+HEXENC = z3.Function("str.encode().hex()", z3.StringSort(), z3.StringSort())
+
+
 class DefineRef(VC):
-    """Symbols._define_ref: the identifier is l_<level>_<name> and is recorded in refs"""
+    """Symbols._define_ref: the identifier of a template name is l_<level>_<name> when the name is in NFKC form (then
+    Python keeps it as written), else l_<level>_0<hex digits of its encoding> (distinct names -> distinct Python
+    identifiers, none of them changed by Python's NFKC normalisation); it is recorded in refs."""
     prop = PROP
     target = "jinja2.idtracking:Symbols._define_ref"
 
     def __init__(self):
         VC.__init__(self, PROP, "C01.symbols._define_ref")
+
+    def configure(self, I):
+        from contracts.c01_parser import install_unicodedata
+        install_unicodedata(I)
+
+        enc = {}
+
+        def str_encode2(I_, st, args, kwargs, node):
+            v = fresh("encoded", "obj", tags={"encoded"})
+            enc[str(v.t)] = to_term(args[0], "str")
+            return [(st, v)]
+
+        I.specs["str.encode"] = str_encode2
+
+        def getattr_obj(I_, st, args, kwargs, node):
+            o, name = args
+            if name == "hex" and str(o.t) in enc:
+                from pyvc.values import BoundMethod
+                return [(st, BoundMethod(o, name))]
+            return None
+
+        def method_obj(I_, st, args, kwargs, node):
+            o, name = args[0], args[1]
+            if name == "hex" and str(o.t) in enc:
+                return [(st, Sym(HEXENC(enc[str(o.t)]), "str"))]
+            return None
+
+        I.specs["getattr_obj"] = getattr_obj
+        I.specs["method_obj"] = method_obj
 
     def setup(self, I, st):
         self.level = sym("level", "int")
@@ -183,19 +217,23 @@ class DefineRef(VC):
         if out.raised:
             return False
         from pyvc.models import py_str_int
-        want = z3.Concat(z3.StringVal("l_"), py_str_int(self.level.t), z3.StringVal("_"), self.name_.t)
+        from contracts.c01_parser import NFKC
+        plain = z3.Concat(z3.StringVal("l_"), py_str_int(self.level.t), z3.StringVal("_"), self.name_.t)
+        spelled = z3.Concat(z3.StringVal("l_"), py_str_int(self.level.t), z3.StringVal("_0"), HEXENC(self.name_.t))
+        want = z3.If(NFKC(self.name_.t) == self.name_.t, plain, spelled)
         h = out.st.get(self.refs)
         return z3.And(to_term(out.value, "str") == want, z3.Select(h.dom, self.name_.t), z3.Select(h.val, self.name_.t) == want)
 
-    posts = [("l_level_name", p_form)]
+    posts = [("l_level_name_or_hex_spelling", p_form)]
 
     def concretize(self, model, pre, out):
         return {"symbols": "_define_ref"}
 
     def replay(self, w):
         s = IDT.Symbols()
-        ok = s._define_ref("x") == "l_0_x" and IDT.Symbols(parent=s)._define_ref("é") == "l_1_é"
-        return (not ok, "Symbols._define_ref('x') at level 0 -> " + s.refs.get("x", "?"))
+        a, b = s._define_ref("x"), IDT.Symbols(parent=s)._define_ref("\ufb01")
+        ok = a == "l_0_x" and b.startswith("l_1_") and b.isidentifier() and b != "l_1_fi" and __import__("unicodedata").normalize("NFKC", b) == b
+        return (not ok, f"Symbols._define_ref('x') -> {a}, _define_ref('\\ufb01') at level 1 -> {b}")
 
 
 # ------------------------------------------------------------------------------------------------ W4
@@ -507,6 +545,7 @@ class LoopControlParse(VC):
     stack shows an enclosing {% for %} (otherwise a TemplateSyntaxError is due) - W6, parser side."""
     prop = PROP
     target = "jinja2.ext:LoopControlExtension.parse"
+    timeout_quick = 90000
 
     def __init__(self):
         VC.__init__(self, PROP, "C01.emit.wellformed.W6.parse")
@@ -1030,11 +1069,11 @@ def _load_with_limit(kwargs, src="hello {{ x }}\n", limit=8):
             "    print('TSE')\n"
             "except BaseException as ex:\n"
             "    print('EXC', type(ex).__name__, ex)\n")
-    try:
-        p = subprocess.run([sys.executable, "-c", code], input=json.dumps([kwargs, src]), capture_output=True, text=True, timeout=limit)
-    except subprocess.TimeoutExpired:
-        return f"did not return within {limit} s"
-    out = (p.stdout or "").strip()
+    from contracts.c01_fuzz import run_cpu_limited
+    status, out, err = run_cpu_limited([sys.executable, "-c", code], json.dumps([kwargs, src]), limit)
+    if status in ("cpu-limit", "wall-cap"):
+        return f"did not return within {limit} s of CPU time"
+    out = (out or "").strip()
     if out.startswith("EXC") and "ValueError" not in out and "AssertionError" not in out:
         return out
     return None
